@@ -117,8 +117,13 @@ class CIGAR(list):
       elif version == "gfa2":
         if not re.match(r"^([0-9]+[MIDP])+\Z", string):
           raise gfapy.FormatError()
-    for m in re.finditer("([0-9]+)([MIDNSHPX=])", string):
-      cigar.append(CIGAR.Operation(int(m.group(1)), m.group(2)))
+    try:
+      for m in re.finditer("([0-9]+)([MIDNSHPX=])", string):
+        cigar.append(CIGAR.Operation(int(m.group(1)), m.group(2)))
+    except ValueError as err:
+      # more digits than int() converts (sys.get_int_max_str_digits())
+      raise gfapy.FormatError(
+          "Invalid operation length in CIGAR string\n({})".format(err)) from err
     return cigar
 
   def __str__(self):
